@@ -90,7 +90,8 @@ Definition qtag (q : query) : string :=
     | CEq => "logicalQuery:eqFunc" | CNe => "logicalQuery:neFunc" | CLt => "logicalQuery:ltFunc"
     | CLe => "logicalQuery:leFunc" | CGt => "logicalQuery:gtFunc" | CGe => "logicalQuery:geFunc"
     end
-  | QBoolean _ _ _ => "booleanQuery"
+  | QBoolean true _ _ => "booleanQuery+IsOr"
+  | QBoolean false _ _ => "booleanQuery"
   | QUnion _ _ => "unionQuery"
   | QNil => "<nil>"
   | _ => "?"
